@@ -181,6 +181,13 @@ def _cfg_join(I):
     I.specs[I.spec_key(map)] = _map_spec
 
 
+def _cfg_visitors(I):
+    """dependency specs needed by some visitors (visit_Const tests math.isfinite on the constant)"""
+    import math
+    from pyvc.values import fresh
+    I.specs[("fn", id(math.isfinite))] = lambda I_, s, args, kwargs, node: [(s, fresh("isfinite", "bool"))]
+
+
 def run_enter_frame(tracking, n, stack):
     from pyvc.engine import Interp
     I = Interp()
@@ -843,7 +850,7 @@ def _fromimport_fields(st):
 
 TASKS = (
     [FnTask("C32", "C32.resolve.covered", resolve_covered, "vc", native_undeclared)]
-    + all_visitor_tasks("C32", "C32.resolve.only_site", no_lookup_pred, replay_fn=native_undeclared, buffers=(None,))
+    + all_visitor_tasks("C32", "C32.resolve.only_site", no_lookup_pred, replay_fn=native_undeclared, buffers=(None,), configure=_cfg_visitors)
     + [TemplateEmitTask("C32", "C32.resolve.only_site.visit_Template", template_no_lookup_pred, replay_fn=native_undeclared, min_paths=8, n_blocks=1),
        FnTask("C32", "C32.resolve.only_site.literals", literal_scan, "table", native_undeclared),
        FnTask("C32", "C32.tracking.tables", tracking_tables, "table", native_undeclared),
@@ -854,7 +861,7 @@ TASKS = (
                 mode="stmts", replay_fn=native_refs, min_paths=1, node_fields=_fromimport_fields, configure=_cfg_join)]
     + [t for nm in ("Output", "If", "For", "Assign", "AssignBlock", "With", "FilterBlock", "Block", "ExprStmt", "Scope", "OverlayScope", "Call", "Filter",
                     "Test", "Name", "Getattr", "Getitem", "CondExpr", "Const")
-       for t in all_visitor_tasks("C32", "C32.refs.sites.others", sites_pred(f"visit_{nm}"), replay_fn=native_refs, only=[nm], buffers=(None,))]
+       for t in all_visitor_tasks("C32", "C32.refs.sites.others", sites_pred(f"visit_{nm}"), replay_fn=native_refs, only=[nm], buffers=(None,), configure=_cfg_visitors)]
     + [FnTask("C32", "C32.refs.sites.tables", sites_tables, "table", native_refs)]
     + [_with_key(FnTask("C32", f"C32.refs.yield.{c.__name__}", refs_yield(c), "vc", native_refs), yield_key) for c in (N.Extends, N.Include, N.Import, N.FromImport)]
 )
